@@ -1234,6 +1234,27 @@ func fillPatch(g *Gen, op *Op, b []byte) {
 		tabEnd = len(b)
 	}
 	switch {
+	case mode == 24: // the last live non-signature descriptor takes the ID of the first one of its group
+		ts := parseTable(b, total)
+		var objs []tableSlot
+		for _, t := range ts {
+			if t.used && !t.sig {
+				objs = append(objs, t)
+			}
+		}
+		if len(objs) < 2 {
+			return
+		}
+		last := objs[len(objs)-1]
+		for _, t := range objs[:len(objs)-1] {
+			if t.gid == last.gid {
+				op.Sites = []PatchSite{{Off: int64(last.o + 5), B: put32(t.id)}}
+				op.N = 1
+				g.count("tamper:two-live-descriptors-one-id")
+				return
+			}
+		}
+		return
 	case mode == 23: // a second in-use descriptor under a signed object's ID, in front of the genuine one
 		// the genuine descriptor is copied into a free slot further down the table; the original slot
 		// is then pointed at another object's bytes: two live descriptors carry the ID, the first
@@ -2012,7 +2033,13 @@ func scenC16(g *Gen, dir string) ([]*Op, func(e *Env, i int, op *Op, obs []strin
 	}
 	// optional tampering
 	tamper := r.Chance(1, 2)
-	if tamper {
+	if tamper && r.Chance(1, 8) {
+		// an unsigned object joins group 1 under the number of an object that is signed (another
+		// writer's numbering): two live descriptors carry that ID
+		ops = append(ops, &Op{Kind: "add", T: TOpt{Kind: "det"}, DI: DI{DT: 0x4007, Fail: -1, Data: DataSpec{Lit: r.Bytes(6 + r.Intn(9))}, Opts: []DIOpt{{Kind: "group", N: 1}}}},
+			&Op{Kind: "patch", Raw: []string{"24", "12"}})
+		g.count("tamper:unsigned-object-under-a-signed-objects-id")
+	} else if tamper {
 		mode := r.Intn(14)
 		if mode >= 12 {
 			mode = 21
@@ -2115,6 +2142,18 @@ func scenC16(g *Gen, dir string) ([]*Op, func(e *Env, i int, op *Op, obs []strin
 					if _, err := fmt.Sscan(x, &id); err == nil {
 						delete(need, id)
 					}
+				}
+			}
+			carriers := map[uint32]int{}
+			e.f.WithDescriptors(func(d sif.Descriptor) bool {
+				if d.DataType() != sif.DataSignature {
+					carriers[d.ID()]++
+				}
+				return false
+			})
+			for id, n := range carriers {
+				if n > 1 && m.LegacyAll && len(m.Objects) == 0 && len(m.Groups) == 0 {
+					return &Violation{Prop: "C16", Key: "C16:legacy-uncovered-object", What: fmt.Sprintf("legacy verification (%s) succeeded although %d live objects carry ID %d: an object-linked signature names one object", m.String(), n, id), Op: i}
 				}
 			}
 			for id := range need {
